@@ -694,7 +694,7 @@ class Check(PropertyCheck):
 
     # ---- E. the byte differential
     def cli_cases(self) -> List[Any]:
-        n = 12 if self.tier == 'quick' else 300
+        n = 10 if self.tier == 'quick' else 300
         out = corpus_cases()
         self.stats['cli_corpus_cases'] = len(out)
         for i in range(n):
